@@ -6,7 +6,7 @@
    correspondence.  support_in_range holds for every support computed by _process_segments. *)
 From Coq Require Import ZArith List Bool Arith QArith.
 From BV Require Import Space.DofMaps Space.SpaceBasics Space.DofMapsProofs Space.P1Proofs Space.RwgProofs
-  Space.Corr Space.GridOk Space.C09Lemmas Space.Reference.
+  Space.Corr Space.GridOk Space.C09Lemmas Space.Reference Space.RwgSpec.
 Import ListNotations.
 Open Scope nat_scope.
 
@@ -148,6 +148,16 @@ Theorem C09_rwg_normal_continuity : forall g sup incl trunc, grid_ok g -> suppor
                l2g (rwg_space g sup incl trunc) y j = l2g (rwg_space g sup incl trunc) x k).
 Proof. exact c09_rwg_two_or_one. Qed.
 Print Assumptions C09_rwg_normal_continuity.
+
+(* RWG/SNC on manifold grids: the edges that carry a dof are exactly those the flags specify on the selection the
+   user asked for (two selected elements on the edge, or one and include_boundary_dofs), whatever the builder did
+   to the support in between *)
+Theorem C09_rwg_selected_edges : forall g sup incl trunc, grid_ok g -> support_in_range g sup -> manifold g ->
+  forall edge, rE (rwg_loop1 g sup incl trunc) edge <> (-1)%Z <->
+               (length (filter sup (enbrs g edge)) = 2 \/ (length (filter sup (enbrs g edge)) = 1 /\ incl = true)).
+Proof. exact (fun g sup incl trunc Hg Hs Hm =>
+  rwg_dof_iff_rule g sup incl trunc (ok_en g Hg) (ok_nodup g Hg) Hs Hm). Qed.
+Print Assumptions C09_rwg_selected_edges.
 
 (* zero-multiplier entries alias a non-zero entry of the same element (needed by C16) *)
 Theorem C09_alias_closed : forall g sup incl trunc,
